@@ -479,7 +479,7 @@ def called_names(raw):
     bo = code.find('{')
     code = code[bo:] if bo >= 0 else ''
     out = set()
-    for m in re.finditer(r'(?:([A-Za-z_][A-Za-z0-9_]*)\s*(?:<[^<>()]*>)?\s*::\s*|(\.)\s*)?([A-Za-z_][A-Za-z0-9_]*)\s*(?:::\s*<[^>()]*>\s*)?\(', code):
+    for m in re.finditer(r'(?:([A-Za-z_][A-Za-z0-9_]*)\s*(?:(?:::\s*)?<[^<>()]*>)?\s*::\s*|(\.)\s*)?([A-Za-z_][A-Za-z0-9_]*)\s*(?:::\s*<[^>()]*>\s*)?\(', code):
         q, dot, nm = m.group(1), m.group(2), m.group(3)
         if nm in _KW:
             continue
